@@ -29,6 +29,11 @@ import itertools
 
 _counter = itertools.count(1)
 
+# helpers of today's tree that the inliner would fold (recorded 2026-09-24).  Only an efficiency hint for Program.inlined_views:
+# per-helper views are built for helpers NOT in this list (i.e. newly extracted ones); correctness does not depend on it.
+ESTABLISHED_HELPERS = {"_augment_epsilon_transitions", "_bottom_up_step", "_compose_bottom_up_epsilon", "_fold", "_parse_chart",
+                       "_pruned_compose", "_trim", "_unary_graph", "_update", "update"}
+
 
 def _is_docstring(st):
     return isinstance(st, ast.Expr) and isinstance(st.value, ast.Constant) and isinstance(st.value.value, str)
